@@ -282,6 +282,59 @@ func VerifScanner(fn string, chunks [][]byte, n int) (outLen int, panicText stri
 			return 0, ""
 		}
 		return len(f.getFileName()) + len(f.RelPath), ""
+	case "relay-decode":
+		// the relay's line decoder on a handshake line (whatever the user typed, whatever the server printed)
+		str, err := decodeRelayBufferString("ACT", first())
+		if err != nil {
+			return 0, ""
+		}
+		return len(str), ""
+	case "relay-recv-act", "relay-recv-cfg":
+		// the relay's handshake readers: recvStringFromClient / FromServer (plain, junk-tolerant, Windows
+		// console) and the JSON decoders of ACT and CFG behind them; n&1 = Windows server, n&2 = Windows client
+		r := &TrzszRelay{stdinBuffer: newTrzszBuffer(), stdoutBuffer: newTrzszBuffer(), trigger: &trzszTrigger{winServer: n&1 == 1}, clientIsWindows: n&2 == 2}
+		buf := r.stdinBuffer
+		if fn == "relay-recv-cfg" {
+			buf = r.stdoutBuffer
+		}
+		for _, c := range chunks {
+			buf.addBuffer(append([]byte(nil), c...))
+		}
+		for i := 0; i < 4; i++ {
+			buf.addBuffer([]byte("A!\n"))
+		}
+		for i := 0; i < 2; i++ {
+			if fn == "relay-recv-act" {
+				if a, err := r.recvAction(); err == nil {
+					outLen += len(a.Lang) + len(a.Version) + len(a.Newline)
+				}
+			} else {
+				if c, err := r.recvConfig(); err == nil {
+					outLen += len(c.Newline)
+				}
+			}
+		}
+		return outLen, ""
+	case "archive-writer":
+		// chunks[0] = destination directory (deep inside the harness's own root), the rest: the archive
+		// stream as the decoder hands it to the writer, piece by piece
+		if len(chunks) == 0 {
+			return 0, ""
+		}
+		dest := string(chunks[0])
+		t := verifArchiveTransfer()
+		w, _, err := t.createDirOrFile(dest, &sourceFile{PathID: 0, RelPath: []string{"root"}, IsDir: true, Archive: true}, true)
+		if err != nil || w == nil {
+			return 0, "setup: archive writer not created"
+		}
+		defer w.Close()
+		for _, c := range chunks[1:] {
+			if err := writeAll(w, c); err != nil {
+				break
+			}
+			outLen += len(c)
+		}
+		return outLen, ""
 	case "recv-line":
 		// recvLine's junk handling (tmux / windows) + recvCheck's splitting on what a peer sent
 		t := newTransfer(io.Discard, nil, false, nil)
@@ -371,4 +424,47 @@ func VerifBufsizeEvolution(maxBuf int64, lens, agesMs []int64) (used, sizes []in
 		}
 	}()
 	return used, sizes, makePanic, ""
+}
+
+// VerifRelayDecode classifies what the relay's line decoder does with a handshake line: "colon" (no
+// type before a colon), "type" with the type it found (expected is never a real type here), or "ok".
+func VerifRelayDecode(line []byte) (class string, typ string, panicText string) {
+	defer func() {
+		if r := recover(); r != nil {
+			panicText = fmt.Sprintf("panic: %v", r)
+		}
+	}()
+	_, err := decodeRelayBufferString("\x01never\x02", line)
+	if err == nil {
+		return "ok", "", ""
+	}
+	if e, ok := err.(*trzszError); ok {
+		if e.errType == "colon" {
+			return "colon", "", ""
+		}
+		return "type", e.errType, ""
+	}
+	return "other", "", ""
+}
+
+// VerifRecvCheckSplit is the same for the transfer's own recvCheck (client and servers).
+func VerifRecvCheckSplit(line []byte) (class string, typ string, panicText string) {
+	defer func() {
+		if r := recover(); r != nil {
+			panicText = fmt.Sprintf("panic: %v", r)
+		}
+	}()
+	t := newTransfer(io.Discard, nil, false, nil)
+	t.addReceivedData(append(append([]byte(nil), line...), '\n'), false)
+	_, err := t.recvCheck("\x01never\x02", false, nil)
+	if err == nil {
+		return "ok", "", ""
+	}
+	if e, ok := err.(*trzszError); ok {
+		if e.errType == "colon" {
+			return "colon", "", ""
+		}
+		return "type", e.errType, ""
+	}
+	return "other", "", ""
 }
